@@ -111,6 +111,19 @@ Definition walk_all (fuel : nat) (r : repo) : res wst :=
   | Ok st => Ok (walk_index r st)
   end.
 
+(* the ids the walker can ever visit, and the fuel that is always enough
+   (Proofs/C22Fuel.v: one unit per id, plus one) *)
+Definition children (o : obj) : list oid :=
+  match o with
+  | OBlob => []
+  | OTree es => map snd es
+  | OCommit t ps => t :: ps
+  | OTag t => [t]
+  end.
+Definition universe (r : repo) : list oid :=
+  nodup N.eq_dec (r.(roots) ++ flat_map (fun e => fst e :: children (snd e)) r.(objs)).
+Definition gc_fuel (r : repo) : nat := S (List.length (universe r)).
+
 (* objectWalker.present *)
 Definition present (st : wst) : list oid := filter (fun h => negb (mem h st.(missing))) st.(seen).
 
@@ -153,7 +166,7 @@ Definition err_name (e : gerr) : string :=
   match e with EFuel => "fuel" | EWalk => "walk" | EEncode => "encode" end%string.
 
 Definition c22_run (is_prune : bool) (use_limit : bool) (r : repo) : out :=
-  let fuel := S (List.length r.(objs)) in
+  let fuel := gc_fuel r in
   match (if is_prune then prune fuel r use_limit else repack fuel r use_limit) with
   | Err e => OErr (err_name e)
   | Ok r' =>
